@@ -1,6 +1,7 @@
 /- C37 — property theorems. -/
 import TornadoModel.C37.Lemmas
 import TornadoModel.C37.Refine
+import TornadoModel.C37.Live
 namespace TornadoModel.C37
 open TornadoModel.C36
 
@@ -143,6 +144,43 @@ example :
   · intro f o h
     match f, h with
     | 2, h => simp at h; subst h; rfl
+
+/-- CANCELLED outcomes (the hypotheses of `runner_refines_native` admit `oc f = .cancelled`): `CancelledError` is
+    thrown into the body by both drivers; a list with a cancelled child fails with `CancelledError` -/
+example : (Runner.exec Code.gen 9 [none] (Code.load [.yld (.fut 0), .retLast]) [.set 0 .cancelled, .tick]).result
+    = some (.exc cancelledErr) := by decide
+example : (Native.exec Code.gen 9 [none] (Code.load [.yld (.fut 0), .retLast]) [.tick, .set 0 .cancelled, .tick]).result
+    = some (.exc cancelledErr) := by decide
+example : (Runner.exec Code.gen 9 [some .cancelled, some (.result 7)]
+      (Code.load [.yld (.list [1, 0]), .retLast]) []).result = some (.exc cancelledErr) := by decide
+
+/-- LIVENESS of the decorated driver, for every generator, every initial state of the futures and every schedule
+    (no assumption on outcomes: results, exceptions, cancellations, spurious settles): whenever the event loop is
+    idle (`ready = []`) and the coroutine has not finished (and the model's fuel bound was not hit), the driver is
+    blocked on an input future that is still PENDING, or on a `multi` future that is still unsettled, and its
+    wake-up callback is registered there.  Contrapositive: once the future it awaits has completed — with a result,
+    an exception or by CANCELLATION — and the loop has drained, the coroutine has finished; it can never be left
+    hanging on a completed future (which is what the code did for a cancelled future before the fix recorded in
+    known_findings/C37.json).  That a `multi` future whose children have all completed settles once the loop has
+    drained is C36's `multi_settles`/`multi_never_pending` (stated for the stand-alone multi machine) and the tie. -/
+theorem runner_live (gen : G → Input → Step G) (fuel : Nat) (st : List FState) (g : G) (ops : List Op) :
+    let d := Runner.exec gen fuel st g ops
+    d.ready = [] → d.finished = false → d.fuelOut = false →
+      (∃ f, d.aw = .fut f ∧ get d.st f = none ∧ d.wakeFut = some f) ∨
+      (d.aw = .multi ∧ (∀ m, d.m = some m → m.out = none) ∧ d.wakeMulti = true) := by
+  intro d hr hf hfo
+  exact live_idle d (live_runner_exec gen fuel st g ops) hr hf hfo
+
+/-- non-vacuity: an idle loop with an unfinished coroutine blocked on a list whose child 1 is pending … -/
+example :
+    let d := Runner.exec Code.gen 9 [none, none] (Code.load [.yld (.fut 0), .yld (.list [0, 1]), .retLast])
+      [.set 0 (.result 4), .tick, .tick]
+    d.ready = [] ∧ d.finished = false ∧ d.fuelOut = false ∧ d.aw = .multi ∧ get d.st 1 = none := by decide
+/-- … and the cancelled awaited future does not leave it hanging -/
+example :
+    let d := Runner.exec Code.gen 9 [none, none] (Code.load [.yld (.fut 0), .yld (.list [0, 1]), .retLast])
+      [.set 0 .cancelled, .tick, .tick]
+    d.ready = [] ∧ d.finished = true ∧ d.result = some (.exc cancelledErr) := by decide
 
 /-- the same at EVERY point of every schedule (nothing need have finished): each driver's log of resumptions is
     exactly the first `log.length` resumptions of the untimed meaning, so at any moment one driver's log is a
